@@ -239,14 +239,8 @@ def r11_3(rep, M, E, rid):
         rep.ok(rid, "min_2d_thickness stored")
     else:
         rep.violation(rid, "SymmetryAnalyzer.__init__: min_2d_thickness", "parameter is not stored", M.where(SA + ".__init__"))
-    tol_ok = any(isinstance(s, ast.Assign) and norm(s.targets[0]) == "self.symmetry_tol" and norm(s.value) == "symmetry_tol" for s in ast.walk(init))
-    ds = M.func(SA + ".get_symmetry_dataset")
-    used = any(isinstance(c, ast.Call) and any(norm(a) == "self.symmetry_tol" for a in list(c.args) + [k.value for k in c.keywords])
-               and "get_symmetry_dataset" in norm(c) for c in ast.walk(ds))
-    if tol_ok and used:
-        rep.ok(rid, "symmetry_tol reaches spglib.get_symmetry_dataset")
-    else:
-        rep.violation(rid, "symmetry_tol forwarding", f"stored: {tol_ok}; passed to spglib: {used}", M.where(SA + ".get_symmetry_dataset"))
+    from .. import symrules as _SR4
+    _SR4.tolerance_reaches_spglib(rep, M, rid)
     d2 = M.func(SA + "._system_to_spglib_description")
     if all("_analyzed_system" in norm(s.value) for s in ast.walk(d2) if isinstance(s, ast.Assign) and "get_" in norm(s.value)):
         rep.ok(rid, "spglib sees the analysed (vacuum-padded for 2D) system")
@@ -315,6 +309,14 @@ def run(rep, ctx):
     with rep.guard("R11.5"):
         from .. import symrules as _SR
         _SR.reset_covers_caches(rep, ctx.model, "R11.5")
+    rep.rule("R11.6", "the helpers the 2D branch relies on (swap_basis, get_minimized_cell, periodic centre of mass) keep the structure (shared with C20)")
+    with rep.guard("R11.6"):
+        from . import c20 as _c20
+        _c20.r20_3(rep, M, E, "R11.6")
+        _c20.r20_4(rep, M, E, "R11.6")
+        _c20.r20_7(rep, M, "R11.6")
+        _c20.r20_units(rep, M, "R11.6")
+    rep.floor("R11.6", 12)
     rep.floor("R11.1", 7)
     rep.floor("R11.2", 2)
     rep.floor("R11.3", 5)
